@@ -632,6 +632,7 @@ var grammarOps = []struct {
 	{"identity-cluster", 10, opIdentityCluster},
 	{"foreign-submodule", 6, opForeignSubmodule},
 	{"share-name", 7, opShareName},
+	{"amplifier", 4, opAmplifier},
 }
 
 // mutateSet applies 1–3 grammar-aware operators to a copy of the set.
